@@ -1,5 +1,5 @@
-\* C07 thorough: hierarchy family to depth 4, wider prefix / split domains, intended switches
-CONSTANTS Family = "hier" MaxDepth = 4 Wide = TRUE
+\* C07 thorough: hierarchy family to depth 3, wider prefix / split domains, intended switches
+CONSTANTS Family = "hier" MaxDepth = 3 Wide = TRUE
  DottedAttrAsValue = FALSE InnerArgsLoseScope = FALSE ReRenameFlatRefs = FALSE AliasOfAliasDropsMods = FALSE InheritedTypeInDerivedScope = FALSE
 INIT Init
 NEXT Next
